@@ -1181,7 +1181,14 @@ func mkRankedShard(s zoekt.Searcher) *rankedShard {
 	// We need to use WithUnsafeContext here, otherwise we cannot return a proper
 	// rankedShard. On the user request path we use selectRepoSet which relies on
 	// rankedShard.repos being set.
-	result, err := s.List(systemtenant.WithUnsafeContext(context.Background()), &q, nil)
+	result, err := func() (rl *zoekt.RepoList, err error) {
+		defer func() {
+			if r := recover(); r != nil {
+				err = fmt.Errorf("panic: %v", r)
+			}
+		}()
+		return s.List(systemtenant.WithUnsafeContext(context.Background()), &q, nil)
+	}()
 	if err != nil {
 		log.Printf("[ERROR] mkRankedShard(%s): failed to cache repository list: %v", s, err)
 		return &rankedShard{Searcher: s}
@@ -1292,7 +1299,15 @@ func (s *shardedSearcher) replace(shards map[string]zoekt.Searcher) {
 	metricShardsLoaded.Set(float64(len(ranked)))
 }
 
-func loadShard(fn string) (zoekt.Searcher, error) {
+func loadShard(fn string) (_ zoekt.Searcher, err error) {
+	// A corrupt shard must not take the process down: the reader trusts offsets
+	// and sizes from the file, so turn a panic while loading into a load error.
+	defer func() {
+		if r := recover(); r != nil {
+			err = fmt.Errorf("panic while loading %s: %v", fn, r)
+		}
+	}()
+
 	f, err := os.Open(fn)
 	if err != nil {
 		return nil, err
